@@ -211,10 +211,10 @@ pub fn case(t: &mut Tape, ctx: &CaseCtx) -> CaseResult {
         if poll {
             s.storage_init.push(("server_dictated_poll_interval".into(), SVal::I(60_000_000)));
         }
-        (s, vec![LifePlan { oneshot: false, checks: 1, crash_at: None }])
+        (s, vec![LifePlan::new(false, 1, None)])
     } else {
         let p = Profile { outcome_w: [6, 3, 2, 1, 5, 2, 2], retry_after: (1, 5), cup: (1, 2), ..Default::default() };
-        let lives = vec![LifePlan { oneshot: t.chance(1, 8), checks: 1 + t.choose(3), crash_at: None }];
+        let lives = vec![LifePlan { oneshot: t.chance(1, 8), checks: 1 + t.choose(3), crash_at: None, wall_at_start: None }];
         let mut s = gen_script(t, &p);
         if t.chance(1, 4) {
             s.storage_init.push(("server_dictated_poll_interval".into(), SVal::I(*t.pick(&[0i64, 1, 5_000_000, 86_400_000_000]))));
